@@ -626,7 +626,17 @@ func ruleK4(c *Ctx) *RuleResult {
 	case !instrDominates(cancelCall, waitCall):
 		r.fail("clientRoutinePool.close|cancel-join", c.Pos(waitCall.Pos()), FuncName(poolClose), "close() cancels the pool context before it waits", "WaitGroup.Wait is not dominated by the cancel call: routines blocked on the context are never released")
 	default:
-		r.ok("clientRoutinePool.close|cancel-join", c.Pos(waitCall.Pos()), FuncName(poolClose), "close() cancels the pool context before it waits", "cancel dominates Wait")
+		// ... and waits on every path: no return before the join
+		var bad []string
+		if len(poolClose.Blocks) > 0 && len(poolClose.Blocks[0].Instrs) > 0 {
+			bad = pathAvoidingFromBlock(c, poolClose, poolClose.Blocks[0], func(x ssa.Instruction) bool { return x == waitCall }, func(x ssa.Instruction) bool { _, ok := x.(*ssa.Return); return ok })
+		}
+		if bad == nil {
+			r.ok("clientRoutinePool.close|cancel-join", c.Pos(waitCall.Pos()), FuncName(poolClose), "close() cancels the pool context and then waits for every routine, on every path", "cancel dominates Wait; no return avoids Wait")
+		} else {
+			r.fail("clientRoutinePool.close|cancel-join", c.Pos(waitCall.Pos()), FuncName(poolClose), "close() cancels the pool context and then waits for every routine, on every path",
+				"a path returns without WaitGroup.Wait (an early return, e.g. an `already cancelled` guard): after Close() the result is yielded while pool goroutines are still running and callbacks still fire", bad...)
+		}
 	}
 	// ctxCancel is the cancel function of the pool context
 	ctxFld := c.Field("", "clientRoutinePool", "ctx")
